@@ -33,6 +33,28 @@ def _nonexc(e: Edge) -> bool:
     return e.label != 'exc'
 
 
+def _rule_spawn(ctx: Ctx, r: 'BufferRoles', rule: str) -> None:
+    """One daemon per buffer, for the buffer's whole life: it is spawned in the constructor (an entry point that starts it on first
+    use can run on two threads at once - two daemons then share one queue, each with its own round set and timer), and the
+    buffer holds the task itself (the event loop keeps only weak references to tasks: a task reachable through a weakref alone
+    can be collected while it is suspended, taking the round's arguments with it)."""
+    m, n = r.spawn_site
+    ctx.check(rule, f'the daemon is spawned in {m.qualname}', f'{FILE}:{n.line}', r.spawn_elsewhere is None,
+              'once, when the buffer is built', f'the daemon is started by {m.name}() on first use: two first submissions from different threads can both '
+              'find it missing and start two daemons on one queue - bursts are split between them and the function can run twice at once',
+              construct=construct_key('BUFFER', 'daemon spawned lazily', m.name))
+    par = parent(n.ast)
+    strong = isinstance(par, (ast.Assign, ast.AnnAssign)) and getattr(par, 'value', None) is n.ast and any(
+        isinstance(t, ast.Attribute) and isinstance(t.value, ast.Name) and t.value.id == 'self'
+        for t in (par.targets if isinstance(par, ast.Assign) else [par.target]))
+    if not strong and isinstance(par, ast.Return):
+        strong = True       # a factory method returning the task: the caller's assignment is checked at its own site
+    ctx.check(rule, f'the buffer keeps the daemon task itself: {norm(par)[:70] if par is not None else None}', f'{FILE}:{n.line}', strong,
+              'a strong reference for the life of the buffer', 'the task is not stored, or stored only through weakref.ref / proxy / a weak container: '
+              'the loop references tasks weakly, so the daemon can be garbage-collected while suspended (e.g. inside the wrapped function) - the '
+              'round is lost and nothing submitted later is delivered', construct=construct_key('BUFFER', 'daemon not strongly referenced'))
+
+
 def rpath(g: CFG, n: Node, expr: Optional[ast.AST]) -> Optional[str]:
     """Canonical access path of *expr* at node *n*, local aliases resolved."""
     if expr is None:
@@ -114,6 +136,24 @@ class BufferRoles:
                 callee = (gi.res.path(n.ast.func) or norm(n.ast.func))
                 if callee.endswith('DaemonTask') or callee.endswith('create_task') or callee.endswith('ensure_future') or callee.endswith('Task'):
                     self.root = self.methods[self_attr(a0.func)]
+                    self.spawn_site = (self.init, n)
+        self.spawn_elsewhere = None
+        if self.root is None:
+            # not in the constructor: spawned lazily by some other method (found so that the rules can say what is wrong with that)
+            for m in self.methods.values():
+                if m is self.init:
+                    continue
+                gm = build(m, p)
+                for n in gm.nodes:
+                    if n.kind != 'call' or not n.ast.args:
+                        continue
+                    a0 = call_of(gm, n, n.ast.args[0])
+                    if a0 is not None and self_attr(a0.func) in self.methods and self.methods[self_attr(a0.func)].is_async:
+                        callee = (gm.res.path(n.ast.func) or norm(n.ast.func))
+                        if callee.endswith('DaemonTask') or callee.endswith('create_task') or callee.endswith('ensure_future') or callee.endswith('Task'):
+                            self.root = self.methods[self_attr(a0.func)]
+                            self.spawn_elsewhere = (m, n)
+                            self.spawn_site = (m, n)
         if self.root is None:
             raise AnalysisError('daemon task of the buffer not found in __init__')
         G = build(self.root, p, inline_methods=True)
@@ -792,6 +832,22 @@ def c07(ctx: Ctx) -> None:
               construct=construct_key('BUFFER.__init__', 'flag not initially set'))
     if r.wait is None:
         raise AnalysisError('wait() vanished')
+    # who may write the timer attribute: the daemon arms it (and the constructor says "none yet"); a reset from wait() or an
+    # entry point races with the daemon, which awaits whatever the attribute holds right after arming
+    if r.timer:
+        daemon_fns = {f_.qualname for f_ in r.daemon_scopes} if hasattr(r, 'daemon_scopes') else set()
+        arm_stmts = {id(a_.meta.get('stmt')) for a_ in r.arm}
+        for m_ in r.methods.values():
+            for x_ in own_nodes(m_.node):
+                if isinstance(x_, (ast.Assign, ast.AnnAssign, ast.AugAssign, ast.Delete)):
+                    tgts_ = x_.targets if isinstance(x_, (ast.Assign, ast.Delete)) else [x_.target]
+                    if any(isinstance(t_, ast.Attribute) and isinstance(t_.value, ast.Name) and t_.value.id == 'self' and t_.attr == r.timer for t_ in tgts_):
+                        ok_ = m_ is r.init or id(x_) in arm_stmts or m_.qualname in daemon_fns
+                        ctx.check('C07-W4', f'{m_.qualname}: {norm(x_)[:60]} writes the timer attribute', f'{FILE}:{x_.lineno}', ok_,
+                                  'written by the daemon (armed) or the constructor only',
+                                  f'self.{r.timer} is re-assigned outside the daemon: the daemon arms the timer and awaits the attribute a few statements later - a '
+                                  'write in between (from a waiter that has just been woken, say) makes it await something else (None: TypeError, the daemon dies)',
+                                  construct=construct_key(m_.qualname, 'timer attribute written outside the daemon'))
     gw = build(r.wait, p, inline_methods=True)
 
     def res_call(n: Node) -> Optional[ast.Call]:
@@ -1084,6 +1140,7 @@ def c08(ctx: Ctx) -> None:
     where = f'{FILE}:{r.root.lineno}'
     from .common import rule_func_attr_is_param
     rule_func_attr_is_param(ctx, 'C08-D1', r.init, 'func', 'wrapped function')
+    _rule_spawn(ctx, r, 'C08-D1')
     # D1: distinct call sites (by AST identity) of self.func anywhere in the class
     sites = {}
     for f in p.all_functions():
